@@ -62,6 +62,21 @@ Definition rr_seq_b (hs picks : list string) : bool :=
   nodup_str (firstn (List.length hs) picks) &&
   periodic_b (List.length hs) picks.
 
+(* ---- a stable list with transient failures ----
+   every answer of the subscriber is either the list hs or a failure (an error, an empty
+   list): the list is fixed, some lookups fail.  Failed calls select nothing; the property
+   speaks of the selections that were made *)
+Definition succeeds (r : report) : bool :=
+  match hosts_step r with inl _ => true | inr _ => false end.
+
+Definition stable_b (hs : list string) (rs : list report) : bool :=
+  forallb (fun r => match hosts_step r with
+                    | inl l => list_eqb str_eqb l hs
+                    | inr _ => true end) rs.
+
+Definition Stable (hs : list string) (rs : list report) : Prop :=
+  forall r, In r rs -> hosts_step r = inl hs \/ exists e, hosts_step r = inr e.
+
 (* ---- random balancer: non-vanishing share ----
    observable form: over M selections every host got at least a quarter of the even share
    M/n (the harness draws M >= 64 n) *)
